@@ -160,6 +160,77 @@ Proof.
 Qed.
 Print Assumptions C15_rnd_keys_idem_partial.
 
+(* ---- (d) the whole sequence: Sequence.remove_duplicates = dedup_core ---------------------------------- *)
+(* StoreWf c   : ids of the shape/gradient/RF/ADC libraries are unique positive keys, no empty type tag stored.
+   RefsExist c : every block entry is 0 or an existing id of its library; every gradient is typed 't' or 'g';
+                 every 'g' gradient row and every RF row has its shape-id columns and they are 0 or existing
+                 shape ids.
+   KeepIds2/3  : the rounding of gradient / RF rows keeps integer shape-id columns (proved below for the
+                 digit tuples of the source).
+   TagsAgree c : rows that become equal by rounding carry the same type tag (for gradients this follows
+                 from the row lengths, C15_tags_agree_intro; for RF rows it is necessary, see
+                 C15_rf_use_merge_refuted).
+   round_dblock: the decoded block with every gradient / RF / ADC row replaced by its rounded row (shape-id
+                 columns renumbered by the shape mapping) and every shape payload by its rounded payload;
+                 duration and extension chain untouched.
+   For ANY four rounding functions: *)
+Theorem C15_dedup_decodes_rounded : forall (r1 r2 r3 r4 : key -> key) c,
+  StoreWf c -> RefsExist c -> KeepIds2 r2 -> KeepIds3 r3 -> TagsAgree r1 r2 r3 c ->
+  exists c', dedup_core r1 r2 r3 r4 c = Some c' /\
+    akeys (blocks c') = akeys (blocks c) /\ durs c' = durs c /\
+    forall i b, decode c i = Some b -> decode c' i = Some (round_dblock r1 r2 r3 r4 c b).
+Proof. exact dedup_decodes_rounded. Qed.
+Print Assumptions C15_dedup_decodes_rounded.
+
+(* afterwards every id referenced by a block exists in its library and every shape id referenced by an
+   RF or gradient row exists in the shape library; the libraries are well formed *)
+Theorem C15_dedup_refs_exist : forall (r1 r2 r3 r4 : key -> key) c,
+  StoreWf c -> RefsExist c -> KeepIds2 r2 -> KeepIds3 r3 ->
+  exists c', dedup_core r1 r2 r3 r4 c = Some c' /\ StoreWf c' /\ RefsExist c'.
+Proof. exact dedup_refs_exist. Qed.
+Print Assumptions C15_dedup_refs_exist.
+
+(* the roundings built from the generated digit tuples keep the shape-id columns *)
+Theorem C15_rnd_keeps_shape_ids : KeepIds2 rnd_grad_key /\ KeepIds3 rnd_rf_key.
+Proof. exact (conj rnd_grad_keeps_shape_ids rnd_rf_keeps_shape_ids). Qed.
+Print Assumptions C15_rnd_keeps_shape_ids.
+
+(* trapezoid rows have 5 entries, arbitrary-gradient rows 6, the rounding keeps the length: gradients of
+   different kind are never merged; RF rows: sufficient if all carry the same tag *)
+Theorem C15_tags_agree_intro : forall (r1 r3 : key -> key) c,
+  StoreWf c -> RefsExist c -> GradRowsShaped c -> RfTagsUniform c -> TagsAgree r1 rnd_grad_key r3 c.
+Proof. exact tags_agree_intro. Qed.
+Print Assumptions C15_tags_agree_intro.
+
+(* with the digit tuples of the source *)
+Theorem C15_seq_dedup_decodes_rounded : forall c,
+  StoreWf c -> RefsExist c -> TagsAgree rnd_shape_key rnd_grad_key rnd_rf_key c ->
+  exists c', seq_dedup c = Some c' /\ StoreWf c' /\ RefsExist c' /\
+    akeys (blocks c') = akeys (blocks c) /\ durs c' = durs c /\
+    forall i b, decode c i = Some b ->
+      decode c' i = Some (round_dblock rnd_shape_key rnd_grad_key rnd_rf_key rnd_adc_key c b).
+Proof. exact seq_dedup_decodes_rounded. Qed.
+Print Assumptions C15_seq_dedup_decodes_rounded.
+
+(* non-vacuity: a store built by add_block (two near-equal trapezoids, two arbitrary gradients whose
+   shapes differ in the 11th digit, RF, ADC) satisfies every hypothesis, and remove_duplicates merges
+   both pairs *)
+Theorem C15_dedup_example :
+  StoreWf ex_c /\ RefsExist ex_c /\ TagsAgree rnd_shape_key rnd_grad_key rnd_rf_key ex_c /\
+  option_map blocks (seq_dedup ex_c) =
+    Some [(1, [0; 0; 1; 0; 0; 0; 0]); (2, [0; 0; 1; 0; 0; 0; 0]); (3, [0; 0; 0; 2; 0; 0; 0]);
+          (4, [0; 0; 0; 2; 0; 0; 0]); (5, [0; 1; 0; 0; 0; 1; 0])].
+Proof. exact dedup_example. Qed.
+Print Assumptions C15_dedup_example.
+
+(* TagsAgree is necessary for RF rows (finding C15/rf-use-merged): two RF rows within the rounding but
+   with different `use` are merged; block 2 decodes with use 'e' (101) instead of 'r' (114) *)
+Theorem C15_rf_use_merge_refuted :
+  exists c c' i, StoreWf c /\ RefsExist c /\ seq_dedup c = Some c' /\
+    rf_use_of (decode c i) = Some (Some 114) /\ rf_use_of (decode c' i) = Some (Some 101).
+Proof. exact rf_use_merge_refuted. Qed.
+Print Assumptions C15_rf_use_merge_refuted.
+
 (* ---- (e) copy vs in place ---------------------------------------------------------------------------- *)
 Theorem C15_dedup_copy_leaves_original : forall cache_on abs_fix r1 r2 r3 r4 s,
   fst (step cache_on abs_fix r1 r2 r3 r4 s DedupCopy) = s.
